@@ -524,6 +524,39 @@ def check_reencode_after_change(inv: Inv, spec_a, spec_b, rec: Recorder):
              sample=lambda: {"class": spec_a["cls"], "first_attrs": sorted(spec_a["attrs"]), "then_attrs": sorted(spec_b["attrs"])})
 
 
+def check_encode_after_failed_encode(inv: Inv, spec_a, spec_b, rec: Recorder):
+    """An encode that fails half-way (an appended AVP that cannot be packed) must not influence the encoding of any
+    other message: B encodes to the same bytes before and after the failed encode of A."""
+    from diameter.message.avp import Avp
+    ka, kb = inv.by_name[spec_a["cls"]], inv.by_name[spec_b["cls"]]
+    if ka not in inv.msgs or kb not in inv.msgs or uses_bad_class(inv, spec_a) or uses_bad_class(inv, spec_b):
+        return
+    case = {"failing": spec_a, "then": spec_b}
+    try:
+        b = build_obj(inv, spec_b)
+        before = b.as_bytes()
+        a = build_obj(inv, spec_a)
+        bad = Avp(code=70001, vendor_id=0)
+        bad.payload = "not-bytes"              # packing this raises after the earlier AVPs have been packed
+        a.append_avp(bad)
+        failed = False
+        try:
+            a.as_bytes()
+        except Exception:
+            failed = True
+        after = build_obj(inv, spec_b).as_bytes()
+        again = b.as_bytes()
+    except Exception as e:
+        rec.violation(f"C03/encode-after-failed-encode/raises/{type(e).__name__}", case, repr(e)[:300])
+        return
+    if after != before or again != before:
+        rec.violation("C03/encode-after-failed-encode/differs", case,
+                      f"{kb.__name__} encodes to {len(before)} bytes, after a failed encode of {ka.__name__} to {len(after)} / {len(again)} bytes")
+    rec.case(fp("fail", hash(before)) if failed and spec_b["attrs"] else None,
+             ["mode:encode-after-failed-encode"] + (["failed-encode:raised"] if failed else []),
+             sample=lambda: {"failing": spec_a["cls"], "then": spec_b["cls"]})
+
+
 def spec_nest(spec) -> int:
     d = 1
     for v in spec["attrs"].values():
@@ -674,6 +707,12 @@ def shard_main(shard, nshards, tier, scale):
     hyp.run_given(hstrat, lambda ab: check_reencode_after_change(inv, ab[0], ab[1], rec), n_hist,
                   derive_seed(PID, "hist", shard), rec=rec)
 
+    # a failed encode of one message, then the encoding of another one
+    fstrat = st.tuples(st.sampled_from(msgs_only).flatmap(lambda k: obj_spec(inv, k, 0)),
+                       st.sampled_from(msgs_only).flatmap(lambda k: obj_spec(inv, k, 0)))
+    hyp.run_given(fstrat, lambda ab: check_encode_after_failed_encode(inv, ab[0], ab[1], rec),
+                  int((2000 if thorough else 150) * scale), derive_seed(PID, "failenc", shard), rec=rec)
+
     # untyped / unknown commands
     codes = [c for c, k in all_commands.items() if not issubclass(k, DefinedMessage)] + [1, 999, 16000009]
     n_un = int((8000 if thorough else 500) * scale)
@@ -702,7 +741,7 @@ def run(tier, scale=1.0):
     rec.extra["definitions_excluded_by_static_findings"] = len(inv.bad_defs)
     if missing:
         rec.extra["definitions_not_covered"] = [".".join(m) for m in missing[:20]]
-    required = {"mode:change-after-encode": 1, "mode:single": 1, "mode:subset": 1, "mode:all": 1, "mode:none": 1, "kind:container": 1,
+    required = {"mode:encode-after-failed-encode": 1, "failed-encode:raised": 1, "mode:change-after-encode": 1, "mode:single": 1, "mode:subset": 1, "mode:all": 1, "mode:none": 1, "kind:container": 1,
                 "kind:message": 1, "kind:untyped": 1, "with-extra": 1, "extra-code-collision": 1, "nest:4": 1,
                 "untyped:repeat": 1, "untyped:grouped": 1}
     rc = finish(rec, tier=tier, level="exploration", rule=RULE, assumptions=ASSUME, t0=t0,
